@@ -4,6 +4,10 @@ the interface file; run after adding a check)."""
 import json, subprocess
 
 CHECKS = {
+ "C02": dict(cat="exploration", ref="DESIGN.md §4 C02",
+  text="Bounded exhaustive differential enumeration: for every input up to a length bound, every searcher configuration and matcher line path, the Sink event stream of search_slice is compared with search_reader under EVERY history (roll-buffer capacities 1,2,3,5,8 via the hook x every composition of the input length as read sizes, heap limits 1..len+2, Interrupted at every read index on the multi-line reader path) and with search_path (mmap / no mmap) and search_file.",
+  note="Trusted: search_slice as the reference (C03 checks it against the grep model). Not covered: inputs above the length bound, capacities above 8.",
+  tech="bounded exhaustive enumeration of inputs x configurations x read/buffer histories, differential oracle (small-scope model checking)"),
  "C03": dict(cat="exploration", ref="DESIGN.md §4 C03, Appendix A.1",
   text="Bounded exhaustive enumeration: every input over {m,x,terminator[,\\r]} up to a length bound (plus all match-flag vectors of one-byte lines) x every searcher configuration (context sizes, invert, passthru, stop-on-nonmatch, line numbers, LF/CRLF/NUL, multi-line requested) x strategy (slice, incremental reader with tiny roll buffers and fragmented reads) x matcher line path (fast, candidate, slow, grep-regex); the full Sink event stream must equal an executable grep reference model.",
   note="Trusted: the reference model (60 lines, DESIGN.md A.1). Not covered: inputs above the length bound, context sizes above 2 (quick) / 3 (thorough).",
